@@ -2776,8 +2776,16 @@ class Processor:
                         recurse(item, parent, parentref, reference_node,
                                 replacement_node)
             elif isinstance(data, (CommentedSet, set)):
-                data.discard(reference_node)
-                data.add(replacement_node)
+                # Only the addressed member -- and its Aliases -- change; any
+                # other Set is left alone, as are merely equal members.
+                for member in list(data):
+                    if member is reference_node and (
+                        hasattr(member, "anchor") or
+                        (data is parent and member == parentref)
+                    ):
+                        data.discard(member)
+                        data.add(replacement_node)
+                        break
             elif isinstance(data, OrderedDict):
                 # Manual key (re)ordering is necessary and YMKs are not
                 # supported.
